@@ -116,13 +116,15 @@ def grammar(tier):
         add("latlon-near", lit)
     # points
     c2 = ["1", "-1", "+1", "1.5", "-1.5", "1.", "0", "007", "10.25"]
+    if tier == "thorough":
+        c2 += ["+0.5", "-007.250", "4294967296"]
     for (a, b) in [("x", "y"), ("n", "e"), ("f", "s")]:
         for up in (False, True):
             A, B = (a.upper(), b.upper()) if up else (a, b)
             for u in c2:
                 for v in c2:
                     add("point2", u + A + v + B)
-    c3 = ["1", "-1.5", "0.", "+2"]
+    c3 = ["1", "-1.5", "0.", "+2"] if tier != "thorough" else c2
     for (a, b, c) in [("x", "y", "z"), ("n", "e", "d"), ("f", "s", "b")]:
         for up in (False, True):
             A, B, C = (a.upper(), b.upper(), c.upper()) if up else (a, b, c)
@@ -244,9 +246,9 @@ def observe(addr, real, ctxname, res):
 
 def build(real, text):
     """real build; a watchdog hit on a loaded machine is retried once with a long limit"""
-    res = real.build_text(text, limit=5.0)
+    res = real.build_text(text, limit=30.0)
     if res.kind == "Watchdog":
-        res = real.build_text(text, limit=60.0)
+        res = real.build_text(text, limit=120.0)
     return res
 
 
@@ -312,7 +314,7 @@ def run_observe(addr, real, ctxname, res):
     """run the built program one tick; -> ('val', v) | ABSENT | ('runfail', text)"""
     del addr.LITLOG[:]
     watch = [".t", ".u", ".n"]
-    rr = real.run(res.houses, tick=TICK, horizon=1, watch=watch, limit=5.0)
+    rr = real.run(res.houses, tick=TICK, horizon=1, watch=watch, limit=60.0)
     if rr.outcome != "returned" or not rr.ticks:
         return ("runfail", rr.outcome + " " + repr(rr.exc))
     shares = rr.ticks[0]["shares"]
@@ -406,7 +408,7 @@ def grid(p, real, addr, items, base):
             text = program(ctx, lit)
             res = build(real, text)
             if res.kind == "Watchdog":
-                p.violation("%s|build-hang" % name, lit, "building %s with literal %s did not terminate in 60 s" % (name, lit),
+                p.violation("%s|build-hang" % name, lit, "building %s with literal %s did not terminate in 120 s" % (name, lit),
                             dict(script=text))
                 continue
             got = observe(addr, real, name, res)
